@@ -30,17 +30,23 @@ theorem header_len_width (major minor : Nat) (dictBytes body : List Nat) (d : Np
     (hascii : allAscii dictBytes = true) (hd : parseNpyDict (bytesToChars dictBytes) = some d)
     (hmaj : major = 1 ∧ dictBytes.length < 2 ^ 16 ∨ (major = 2 ∨ major = 3) ∧ dictBytes.length < 2 ^ 32) :
     readNpy (frame major minor (if major = 1 then 2 else 4) dictBytes body) = bodyResult d body := by
-  sorry
+  have hw : npyLenWidth major = some (if major = 1 then 2 else 4) := by
+    rcases hmaj with ⟨rfl, _⟩ | ⟨rfl | rfl, _⟩ <;> rfl
+  have hL : dictBytes.length < 256 ^ (if major = 1 then 2 else 4) := by
+    rcases hmaj with ⟨rfl, h⟩ | ⟨rfl | rfl, h⟩ <;> simpa using h
+  rw [frame, readNpy_framed major minor _ dictBytes body hw hL]
+  simp only [npyAfterHeader, hascii, hd, bodyResult, Bool.not_true, Bool.false_eq_true, if_false]
+  rfl
 
 /-- Any other major version is rejected. -/
 theorem bad_version_rejected (major minor : Nat) (tail : List Nat) (h : major ≠ 1 ∧ major ≠ 2 ∧ major ≠ 3) :
     readNpy (npyMagic ++ [major, minor] ++ tail) = .error .invalid := by
-  sorry
+  exact readNpy_bad_version major minor tail (npyLenWidth_none major h)
 
 /-- fortran_rejected: Fortran-ordered files are rejected whatever else they contain. -/
 theorem fortran_rejected (d : NpyDict) (body : List Nat) (h : d.fortran = true) :
     bodyResult d body = .error .invalid := by
-  sorry
+  simp only [bodyResult, h, if_true]
 
 /-- The value loop reads exactly `body.length / width` values, in order, each from its own `width` bytes, and rejects a
     trailing partial value. -/
@@ -49,7 +55,7 @@ theorem readValues_spec (en : Endian) (t : NpyTy) (body : List Nat) :
       if body.length % t.width = 0 then
         .ok ((List.range (body.length / t.width)).map (fun i => decodeValue en t ((body.drop (i * t.width)).take t.width)))
       else .error .eof := by
-  sorry
+  exact readValues_fuel en t body.length body (body.length + 1) rfl (Nat.lt_succ_self _)
 
 /-! ## reader: the 20 decoders -/
 
@@ -68,30 +74,33 @@ def f32OfBits (b : Nat) : XR :=
 /-- Big-endian decoding is little-endian decoding of the reversed bytes (so ten theorems cover twenty decoders). -/
 theorem decode_big_eq (t : NpyTy) (bytes : List Nat) :
     decodeValue .big t bytes = decodeValue .little t bytes.reverse := by
-  sorry
+  exact decodeValue_big t bytes
 
 /-- f8: the pattern is transported unchanged (NaN payloads, infinities, signed zeros included). -/
 theorem decode_f8 (b : Nat) (hb : b < 2 ^ 64) : decodeValue .little .f8 (leBytes 8 b) = b := by
-  sorry
+  exact ofLeBytes_leBytes8 b hb
 
 /-- f4: widened exactly (every binary32 value, subnormals included, is a binary64 value); NaN stays NaN. -/
 theorem decode_f4 (b : Nat) (hb : b < 2 ^ 32) :
     f64OfBits (decodeValue .little .f4 (leBytes 4 b)) = f32OfBits b := by
-  sorry
+  have h4 : ofLeBytes (leBytes 4 b) = b := ofLeBytes_leBytes_of_lt 4 b (by simpa using hb)
+  show f64OfBits (f64BitsOfF32Bits (ofLeBytes (leBytes 4 b))) = _
+  rw [h4]
+  exact widen_bits b
 
 /-- The integer a `k`-byte little-endian pattern denotes as an unsigned / two's complement number. -/
 theorem signedOf_spec (k n : Nat) (hk : 0 < k) (hn : n < 2 ^ (8 * k)) :
     -(2 ^ (8 * k - 1) : Int) ≤ signedOf k n ∧ signedOf k n < (2 ^ (8 * k - 1) : Int) ∧
       (signedOf k n - (n : Int)) % (2 ^ (8 * k) : Int) = 0 := by
-  sorry
+  exact signedOf_bounds k n hk hn
 
 /-- u1, u2, u4 and every u8 below 2^53: the value is exactly the unsigned integer. -/
 theorem decode_unsigned_exact (n : Nat) (hn : n ≤ 2 ^ 53) : f64OfBits (f64BitsOfNat false n) = .fin (n : Rat) := by
-  sorry
+  exact f64OfBits_ofNat_unsigned n hn
 
 /-- i1, i2, i4 and every i8 of magnitude at most 2^53: the value is exactly the signed integer. -/
 theorem decode_signed_exact (i : Int) (hi : i.natAbs ≤ 2 ^ 53) : f64OfBits (f64BitsOfInt i) = .fin (i : Rat) := by
-  sorry
+  exact f64OfBits_ofInt i hi
 
 /-- 64-bit integers beyond 2^53 are converted to a nearest binary64 (what numpy's `astype(float64)` and Rust's `as f64`
     do): the result is a finite value of the form `m·2^s` with `2^52 ≤ m ≤ 2^53`, within half a unit `2^s/2` of `n`. -/
@@ -99,7 +108,7 @@ theorem decode_unsigned_nearest (n : Nat) (hn : 2 ^ 53 < n) (hlt : n < 2 ^ 64) :
     ∃ m s : Nat, 2 ^ 52 ≤ m ∧ m ≤ 2 ^ 53 ∧ s = Nat.log2 n - 52 ∧
       f64OfBits (f64BitsOfNat false n) = .fin ((m * 2 ^ s : Nat) : Rat) ∧
       2 * (if m * 2 ^ s ≤ n then n - m * 2 ^ s else m * 2 ^ s - n) ≤ 2 ^ s := by
-  sorry
+  exact f64OfBits_ofNat_nearest n hn hlt
 
 /-- The table: which conversion each of the ten type codes uses, and its byte width (`descr` itemsize). -/
 theorem decoder_table (bytes : List Nat) :
@@ -108,7 +117,13 @@ theorem decoder_table (bytes : List Nat) :
     (∀ t ∈ [NpyTy.u1, .u2, .u4, .u8], decodeValue .little t bytes = f64BitsOfNat false (ofLeBytes bytes)) ∧
     (∀ t ∈ [NpyTy.i1, .i2, .i4, .i8], decodeValue .little t bytes = f64BitsOfInt (signedOf t.width (ofLeBytes bytes))) ∧
     [NpyTy.f4, .f8, .i1, .i2, .i4, .i8, .u1, .u2, .u4, .u8].map NpyTy.width = [4, 8, 1, 2, 4, 8, 1, 2, 4, 8] := by
-  sorry
+  refine ⟨rfl, rfl, ?_, ?_, rfl⟩
+  · intro t ht
+    simp only [List.mem_cons, List.not_mem_nil, or_false] at ht
+    rcases ht with rfl | rfl | rfl | rfl <;> rfl
+  · intro t ht
+    simp only [List.mem_cons, List.not_mem_nil, or_false] at ht
+    rcases ht with rfl | rfl | rfl | rfl <;> rfl
 
 /-! non-vacuity -/
 /-- numpy's own spelling of a big-endian i2 header, v2.0 framing, one value `-2`. -/
